@@ -41,6 +41,28 @@ def cases(ctx):
             for v in lows + highs:
                 xs.insert(rng.below(len(xs) + 1), v)
             out.append({"dt": dt, "level": level, "order": 0, "gcds": rng.below(2), "chunks": [xs], "kinds": ["two-sided-spike"], "drain": 0})
+    # a dominant value just above the run-length threshold (80-85 %) broken into the shortest possible runs by isolated
+    # other values, the dominant value being the largest, the smallest or a middle value of the chunk: every run then
+    # costs a code plus the varint, so a jumpstart that is too large shows at once; for bool (W = 1) the bound of
+    # W + 4 = 5 bits per number is tight
+    pd = [("bool", hi) for hi in (0, 1, 2)] * (1 if ctx.quick else 4) + \
+         [(rng.choice([d for d in S.ALL_DT if d != "bool"]), rng.below(3)) for _ in range(4 if ctx.quick else 30)]
+    for dt, where in pd:
+        n = rng.choice([1001, 1005, 2000, 5000])
+        period = rng.choice([5, 5, 6, 7])                       # 4 of 5, 5 of 6, 6 of 7 dominant
+        if dt == "bool":
+            dom, others = (1, [0]) if where else (0, [1])
+        else:
+            c = G.key(dt, G.random_pattern(rng, dt)) // 4
+            dom = G.from_signed_val(dt, c)
+            lo = [G.from_signed_val(dt, c - 1 - rng.below(50)) for _ in range(8)]
+            hi = [G.from_signed_val(dt, c + 1 + rng.below(50)) for _ in range(8)]
+            others = hi if where == 0 else lo if where == 1 else lo + hi
+        xs = [dom if (i % period) != period - 1 else rng.choice(others) for i in range(n)]
+        if xs.count(dom) * 5 < 4 * n:
+            xs[-1] = dom
+        out.append({"dt": dt, "level": rng.choice([4, 8, 12]), "order": rng.choice([0, 0, 1]) if dt == "bool" else 0, "gcds": rng.below(2),
+                    "chunks": [xs], "kinds": ["periodic-dominant"], "drain": 0})
     for _ in range(800 if ctx.quick else 8000):
         out.append(S.enc_case(rng))
     # a nearly full-range uniform bulk plus hundreds of tight clusters at level 12: one merged range holds most numbers and
